@@ -24,7 +24,7 @@ var hostileGroups = []string{"g", "g,flatten", "g,soft", "g,bogus", ",flatten", 
 
 var rawValues = []string{"nil", "int", "string", "struct", "ptr", "nilfunc", "nilfuncin", "slice", "map", "chan", "nilptr", "in", "out", "err"}
 
-var rawAsValues = []string{"nil", "int", "ptrstruct", "ptrptr", "iface", "ptrerr", "ptrany", "func", "I0", "I1", "I2"}
+var rawAsValues = []string{"nil", "int", "ptrstruct", "ptrptr", "iface", "ptrerr", "ptrany", "func", "I0", "I1", "I2", "nilI0"}
 
 // genTag draws a struct tag: one of the fixed hostile tags or a composition
 // of 1-3 key:"value" pairs over dig's tag keys (and foreign ones) with values
@@ -147,6 +147,10 @@ func (g *gen) genBadProvide(s int) Op {
 		o.AsRaw = []string{g.pickStr(rawAsValues, "asraw")}
 		if g.pct(50, "asraw2") {
 			o.AsRaw = append(o.AsRaw, g.pickStr(rawAsValues, "asraw2v"))
+		}
+		if g.pct(35, "asrawgroup") {
+			// option validation must not stop at the group
+			o.Group = g.pickStr([]string{"g", "g,flatten"}, "asrawg")
 		}
 	case 6: // no results at all / only an error
 		f.R = nil
@@ -298,7 +302,7 @@ func (g *gen) genBadDecorate(s int) Op {
 
 func (g *gen) genBadInvoke(s int) Op {
 	f := g.newFn()
-	switch g.pick(6, "bik") {
+	switch g.pick(8, "bik") {
 	case 0:
 		return Op{K: OpInvoke, S: s, Raw: g.pickStr(rawValues, "raw")}
 	case 1:
@@ -315,6 +319,12 @@ func (g *gen) genBadInvoke(s int) Op {
 	case 4:
 		f.P = nil
 		f.Var = "T0"
+	case 5, 6:
+		// the nil value of a well-formed function type whose parameters
+		// are (mostly) available: rejected, and nothing may run for it
+		ipl := g.drawParamLeaves(s, 1+g.pick(3, "nfn"), 95, true)
+		f.P = g.encodeParams(ipl)
+		f.NilFn = true
 	default:
 		f.P = []Param{{T: "T0"}, g.hostParam("ihp2")}
 		f.R = []Result{g.hostResult("ihr")} // invoked functions may return anything
